@@ -602,12 +602,24 @@ def vf_or_const(a, c):
 
 # loop cut registry: key -> handler(iterable) -> iterable
 LOOP_CUTS = {}
+# loops shown stateless (uniform.check): a Run met by such a loop is processed through its generic member
+UNIFORM_LOOPS = set()
+
+
+def _with_generic(it):
+    for x in it:
+        if getattr(type(x), "__vf_run__", False):
+            yield x.generic_member()
+        else:
+            yield x
 
 
 def vf_loop_iter(key, it):
     h = LOOP_CUTS.get(key)
     if h is not None:
         return h(it)
+    if key in UNIFORM_LOOPS and isinstance(it, (list, tuple)) and any(getattr(type(x), "__vf_run__", False) for x in it):
+        return _with_generic(it)
     hh = getattr(type(it), "__vf_iter__", None)
     if hh is not None:
         return hh(it, key)
